@@ -46,7 +46,7 @@ def main():
         a.checks = a.checks or ",".join(old.get("checks", {}))
     checks = [c for c in (a.checks or a.prop).split(",") if c]
     wt = "/tmp/seedwt_%s_%d" % (a.seed, os.getpid())
-    meta = {"seed": a.seed, "breaks_property": a.prop, "needs_to_manifest": a.needs, "ran": [], "checks": {}}
+    meta = {"seed": a.seed, "breaks_property": a.prop, "needs_to_manifest": a.needs, "ran": [], "checks": {}, "tier": a.tier}
     rc, out = sh("git -C /repo worktree add -q --detach %s HEAD" % wt)
     if rc:
         print(out)
